@@ -183,11 +183,40 @@ def check(P, R, rule):
     ret = Ret(P, exc)
     R.note('may-retire summaries: %d' % len(ret.ret))
     n_sites = 0
+    from . import core as _core
+    em = _core.emitters(P)
     for f in P.fns.values():
         vs = req_vars(f)
         if not vs:
             continue
         problems = {}
+        # texts that NAME a request: the routing tag it was looked up by, a tag formatted from it, and any buffer
+        # formatted from one of those.  After the request is retired they must not reach the server channel either.
+        names = {}
+        for t in f.sites():
+            ev = t.ev
+            if ev['k'] in ('store', 'decl'):
+                rhs = ev.get('rhs') if ev['k'] == 'store' else ev.get('init')
+                lv = ev['lhs']['name'] if ev['k'] == 'store' and is_var(ev.get('lhs')) else ev.get('var')
+                if isinstance(rhs, dict) and rhs.get('k') == 'callref' and rhs.get('callee') in ('iauth_validate_request',) and lv in vs:
+                    for a in rhs.get('args', []):
+                        if is_var(a):
+                            names.setdefault(a['name'], set()).add(lv)
+            if ev['k'] == 'call' and ev.get('callee') == 'iauth_routing' and len(ev['args']) >= 2 and is_var(ev['args'][0]) and is_var(ev['args'][1]) and ev['args'][0]['name'] in vs:
+                names.setdefault(ev['args'][1]['name'], set()).add(ev['args'][0]['name'])
+        changed = True
+        while changed:
+            changed = False
+            for t in f.calls():
+                ev = t.ev
+                if ev.get('callee') in ('snprintf', 'sprintf', 'strcpy', 'strlcpy', 'strncpy', 'strcat', 'strlcat') and ev['args'] and is_var(ev['args'][0]):
+                    dst = ev['args'][0]['name']
+                    for a in ev['args'][1:]:
+                        for y in walk(a):
+                            if is_var(y) and y['name'] in names and y['name'] != dst:
+                                if not names[y['name']] <= names.get(dst, set()):
+                                    names.setdefault(dst, set()).update(names[y['name']])
+                                    changed = True
 
         def on_event(st, s, f=f, vs=vs, problems=problems):
             ev = s.ev
@@ -203,6 +232,13 @@ def check(P, R, rule):
                     for a in ev['args']:
                         if is_var(a) and a['name'] in retired:
                             used.add(a['name'])
+                    # a text naming the retired request handed to something that may write to the server
+                    if names and any(x.key in em for x in P.callees(s, True)):
+                        for a in ev['args']:
+                            for y in walk(a):
+                                if is_var(y) and y['name'] in names:
+                                    for v in names[y['name']] & set(retired):
+                                        used.add(v)
                 for v in used:
                     problems.setdefault(retired[v], []).append((s, v))
             if ev['k'] == 'store' and is_var(ev.get('lhs')) and ev['lhs']['name'] in retired:
